@@ -102,6 +102,9 @@ func buildSMT(rep *FuncReport, o *Obligation, withModel bool) string {
 		if keepH != nil && !keepH[i] {
 			continue
 		}
+		if g := hypGroup(h.S); g != "" && g != sanitize(o.Group) {
+			continue // a fact of another proof group
+		}
 		fmt.Fprintf(&b, "(assert %s)\n", h.S)
 	}
 	fmt.Fprintf(&b, "(assert (not %s))\n", o.Goal.S)
